@@ -97,8 +97,13 @@ def snapshot(name):
     it, end, dom = live(name)
     out = []
     for lf in it.leaves:
-        out.append({"path": [str(p) for p in lf.path], "off": linear(lf.off), "width": linear(lf.width), "kind": layout.kind_json(lf.kind)})
-    return {"leaves": out, "end": linear(end)}
+        e = {"path": [str(p) for p in lf.path], "off": linear(lf.off), "width": linear(lf.width), "kind": layout.kind_json(lf.kind)}
+        if lf.idx:
+            e["idx"] = [[str(i), linear(cnt), sz] for i, cnt, sz in lf.idx]
+        out.append(e)
+    struct, values, dom = registry()[name]
+    params = {".".join(map(str, k)): str(v) for k, v in values.items()}
+    return {"leaves": out, "end": linear(end), "params": params}
 
 
 def load():
@@ -117,7 +122,13 @@ def compare(name, session, spec=None):
         extra = [".".join(p) for p in live_paths if p not in spec_paths]
         order = [".".join(a) for a, b in zip(live_paths, spec_paths) if a != b][:6]
         literal.append({"what": "field list differs", "missing": missing[:8], "extra": extra[:8], "first_out_of_order": order})
-    by_path = {tuple(e["path"]): e for e in spec["leaves"]}
+    # fields are matched by (path, occurrence): a struct may use the same name twice (e.g. two `blanks`)
+    by_path, count = {}, {}
+    for e in spec["leaves"]:
+        k = tuple(e["path"])
+        by_path[(k, count.get(k, 0))] = e
+        count[k] = count.get(k, 0) + 1
+    occ = {}
     assumptions = list(it.constraints) + list(dom)
     # generic array indices range over their arrays
     for lf in it.leaves:
@@ -125,7 +136,9 @@ def compare(name, session, spec=None):
             assumptions += [idx >= 0, idx < count]
     session.feasible(f"{name}:admissible", assumptions, show=list(_vars_of(assumptions).values())[:6])
     for lf in it.leaves:
-        e = by_path.get(tuple(str(p) for p in lf.path))
+        k = tuple(str(p) for p in lf.path)
+        e = by_path.get((k, occ.get(k, 0)))
+        occ[k] = occ.get(k, 0) + 1
         if e is None:
             continue
         label = f"{name}:{lf.name}"
